@@ -132,7 +132,7 @@ def run(tier):
     # other spellings and array lengths of -r, values with the high bit set / beyond 32 bits, and -r=0 (the code is called without arguments)
     for K in (0x4000000000000000, 0x7fffffffffffffff, 0x8000000000000005, 0x80000000, 0x7fffffff, 0xffffffffffffffff, 0):
         body, want = ["mov rax, 0x%x" % K, "mov [rdi], rax", "mov rcx, [rdi]", "add rax, rcx", "mov [rsi+0x8], rax", "mov rax, [rsi+0x8]", "nop7", "ret"], (2 * K) & (2**64 - 1)
-        for how in ("-r", "-r=2", "-r=100", "--return", "--return=5"):
+        for how in ("-r", "-r=2", "-r=100", "--return", "--return=5", "--rand"):  # (--rand: the arrays hold random data; the program writes before it reads)
             add(body, True, [], how, rnd.choice(["FILE", "stdin"]), {"want": want})
         add(["mov rax, 0x%x" % K, "ret"], True, [], "-r=0", rnd.choice(["FILE", "stdin"]), {"want": K})
     # programs without any instruction: the empty program (0 bytes of input), a blank line, comments only. The library assembles them to
@@ -271,7 +271,7 @@ def run(tier):
             args += ["-b", str(j["c"])]
         elif ok == "-pb":
             args += ["-p", "-b", str(j["c"])]
-        elif ok.startswith(("-r", "--return")):
+        elif ok.startswith(("-r", "--return", "--rand")):
             args += [ok]
         elif ok == "-usage":
             args += ["-p"] + j["bad_args"]
@@ -389,7 +389,7 @@ def run(tier):
             want = fmt_p(R["insn"]) + "%s instructions break a chunk boundary of %d bytes\n" % (R["count"], j["c"])
             if out != want:
                 bad = ("count-print-differs", "got %r want %r" % (out[-200:], want[-200:]))
-        elif k.startswith(("-r", "--return")):
+        elif k.startswith(("-r", "--return", "--rand")):
             want = "\nthe value is 0x%x\n" % j["want"]
             if out != want:
                 bad = ("returned-value-differs", "got %r want %r" % (out, want))
